@@ -223,6 +223,7 @@ type BuiltTx struct {
 	Value    *big.Int
 	To       *common.Address
 	Oracle   *OracleInfo
+	Authorized *bool // for parameter updates: whether the sender is the rightful authority
 }
 
 func sdkDur(sec int64) time.Duration { return time.Duration(sec) * time.Second }
